@@ -184,7 +184,7 @@ INFO['C02'] = {
     'bounds': 'per-layer obligations over the probe backend (uninterpreted function of the coordinate, call recorder): '
               'N and M independently in 1..4 (quick: 5 pairs, thorough: 16), coordinate scalars int/unsigned/size_t/float/double '
               'where the layer admits them; every coordinate value (NaN excluded), every configuration value; '
-              'composition for deeper stacks by induction over the stack (stated) plus fixed stacks of depth 3-5 checked directly; pairwise adjacency over the REAL layers: each of clamp, backup, shuffle, covariant_cast, dereference, nearest_neighbour directly above each of strided, Morton (both variants), Hilbert, clamp, backup, shuffle, cast, dereference (each over strided<array>, 3x2 storage, symbolic contents/configuration) and constant: W<X>.at equals the definition of W applied to the view X itself gives of the same storage',
+              'composition for deeper stacks by induction over the stack (stated) plus fixed stacks of depth 3-5 checked directly; pairwise adjacency over the REAL layers: each of clamp, backup, shuffle, covariant_cast, dereference, nearest_neighbour directly above each of strided, Morton (both variants), Hilbert, clamp, backup, shuffle, cast, dereference (each over strided<array>, 3x2 storage, symbolic contents/configuration) and constant; linear above each of those (bit-identical to linear above a plain row-major array of the values the layer reports; every cell, quarter-cell offsets, symbolic contents); affine above nearest/linear over clamped layouts (symbolic matrix and coordinate, |.|<=8): W<X>.at equals the definition of W applied to the view X itself gives of the same storage',
     'outside': 'N or M above 4; NaN coordinates; stacks deeper than 5 (covered only by the induction argument)',
     'cuts': 'probe backend = uninterpreted function per output component; equality of results is bit-for-bit',
     'assumptions': ['a layer that treats its backend as an uninterpreted function of the coordinate cannot depend on what lies beneath (compositionality, stated)'],
@@ -293,6 +293,18 @@ def adjacency_units(tier, ws=None):
             fl = ('rel', 'dbg') if (tier == 'thorough' or k in (0, 4)) and k != 9 else ('rel',)
             U += unit(f'c02_adj_{wn}_over_{kn}', 'c02_adjacent.cpp', f'adj_h<{w},{k}>()', sites=[1, 2] if w == 1 else [1],
                       extra=['-mbmi2'] if k == 9 else (), flavours=fl, diff=(k == 0), weight=5 if w == 5 else 1)
+    if ws is None or 'linear' in ws:
+        # linear above X == linear above a plain row-major array of the values X reports (every cell, quarter offsets)
+        for k, kn in enumerate(ADJ_K):
+            U += unit(f'c02_adj_linear_over_{kn}', 'c02_adjacent.cpp', f'adj_linear_h<{k}>()', sites=[1], extra=['-mbmi2'] if k == 9 else (),
+                      weight=40 if k == 4 else 5, cfg={'max_paths': 20000})
+    if ws is None or 'affine' in ws:
+        # affine above Y == the view of Y at A c + t (symbolic matrix, coordinate, contents)
+        for y, yn in enumerate(['nn_clamp_strided', 'linear_clamp_strided', 'nn_clamp_morton', 'linear_clamp_hilbert']):
+            if tier != 'thorough' and y >= 2:
+                continue
+            U += unit(f'c02_adj_affine_over_{yn}', 'c02_adjacent.cpp', f'adj_affine_h<{y}>()', sites=[1], weight=100,
+                      cfg={'query_timeout_ms': 600000}, timeout=1800)
     return U
 
 
